@@ -44,7 +44,8 @@ CHECKS = {
     "C08": (
         "exploration",
         "Hypothesis grammar/corruption/free-bytes generation (lines delivered whole, cut at CR|LF or at a fraction) with a "
-        "three-valued reference classifier; exhaustive length sweep 1000..1040; atheris lane",
+        "three-valued reference classifier; the same lines as TLS records through both real stacks; exhaustive length "
+        "sweep 1000..1040; atheris lane",
         "Must-accept lines (grammar, up to exactly 1024 bytes) must reach the spy handler with host/port/path/query "
         "(and Titan size/mime/token/content) intact; must-reject lines get 59 (50 for titan:// when uploads are off) "
         "with no spy invoked; free bytes only 'invoked => acceptable'. Grey zones never alarm.",
@@ -76,8 +77,9 @@ CHECKS = {
     ),
     "C04": (
         "exploration",
-        "Hypothesis-generated middleware chains (real + scripted components) x requests x schedules; reference "
-        "chain-walk oracle; spy handlers; real start_server assembly over in-memory TLS",
+        "Hypothesis-generated middleware chains (real + scripted components) x requests x schedules, incl. several "
+        "connections in flight through one shared chain; reference chain-walk oracle; spy handlers; real start_server "
+        "assembly over in-memory TLS",
         "For generated chains in every order, Gemini and Titan requests and interleavings, spy request/upload handlers "
         "must stay silent while any component is pending and forever when the reference chain walk refuses; the client "
         "must receive exactly the first rejection; the chain must see the transport's peer address, the normalised URL "
@@ -87,9 +89,10 @@ CHECKS = {
     ),
     "C20": (
         "exploration",
-        "exhaustive construction-path x protocol-version matrix with control handshakes + Hypothesis plaintext "
-        "payloads against both stacks in memory",
-        "All 12 server context construction paths and the client contexts are offered TLS 1.0-1.3 by a permissive "
+        "exhaustive construction-path x protocol-version matrix with control handshakes (also re-run in a child under a "
+        "legacy-compatibility OPENSSL_CONF) + Hypothesis plaintext payloads against both stacks and captured "
+        "start_server assemblies in memory",
+        "All 23 server context construction paths (every listener start_server opens) and the client contexts are offered TLS 1.0-1.3 by a permissive "
         "peer (security level 0): below 1.2 no handshake completes, no handler runs and no Gemini-shaped bytes come "
         "back, while a control handshake proves the old version is negotiable; 1.2/1.3 are served. Plaintext never "
         "reaches a handler.",
@@ -121,7 +124,8 @@ CHECKS = {
     "C14": (
         "fault_enumeration",
         "Hypothesis-generated upload trees x configurations x Titan requests with injected storage faults; "
-        "enumeration of every EFBIG offset and every n-th failing filesystem call; whole-sandbox snapshot-diff oracle",
+        "enumeration of every EFBIG offset, every n-th failing filesystem call and the full precondition matrix; "
+        "whole-sandbox snapshot-diff oracle",
         "Every generated or enumerated upload/delete (handler level and through the protocol) is judged by diffing a "
         "snapshot of the whole sandbox: success changes exactly the one inside regular file with exactly the declared "
         "bytes and only when token/size/type/delete preconditions hold; any failure status - including a disk-full at "
@@ -212,7 +216,8 @@ CHECKS = {
     "C10": (
         "exploration",
         "exhaustive small-scope arrival histories + Hypothesis long histories under a virtual clock; exact Fraction "
-        "token-bucket model (no clean-up), window-bound invariant, isolation metamorphic relation",
+        "token-bucket model (no clean-up), window-bound invariant (also on handler invocations behind the real protocol), "
+        "isolation metamorphic relation",
         "The real RateLimiter (with its clean-up task) runs under a virtual clock; every decision is compared step by "
         "step with an exact-arithmetic token bucket that has no clean-up, the admitted timestamps of every address must "
         "satisfy count <= capacity + rate x T for every window, removing other addresses' traffic must not change an "
